@@ -39,7 +39,7 @@ package gen
 //@ loop (*{T}Field).Write#1
 //@   modifies buf, HA(buf.B), HA(bs)
 //@   invariant buf != nil && freshsince(buf) && freshOrNil(buf.B) && freshsince(bs)
-//@   invariant[C02] 0 <= rangeindex + 1 && rangeindex + 1 <= #f.vals && #buf.B == strBytes(HA(f.vals), off(f.vals), rangeindex + 1)
+//@   invariant[C02] 0 <= iter && iter <= #f.vals && #buf.B == strBytes(HA(f.vals), off(f.vals), iter)
 //@ loop (*{T}OptionalField).Write#1
 //@   modifies buf, HA(buf.B), HA(bs)
 //@   invariant buf != nil && freshsince(buf) && freshOrNil(buf.B) && freshsince(bs)
@@ -54,13 +54,13 @@ package gen
 //@ loop (*{T}Field).Write#1
 //@   modifies buf, HA(buf.B), HA(bs)
 //@   invariant buf != nil && freshsince(buf) && freshOrNil(buf.B) && freshsince(bs)
-//@   invariant[C01] 0 <= rangeindex + 1 && rangeindex + 1 <= #f.vals && #buf.B == {T2} * (rangeindex + 1) && #bs == {T2} && ref(buf.B) != ref(bs)
-//@   invariant[C01] forall k in 0..rangeindex + 1: le{T2}at(buf.B, {T2} * k) == bits_{T1}(f.vals[k])
+//@   invariant[C01] 0 <= iter && iter <= #f.vals && #buf.B == {T2} * (iter) && #bs == {T2} && ref(buf.B) != ref(bs)
+//@   invariant[C01] forall k in 0..iter: le{T2}at(buf.B, {T2} * k) == bits_{T1}(f.vals[k])
 //@ loop (*{T}OptionalField).Write#1
 //@   modifies buf, HA(buf.B), HA(bs)
 //@   invariant buf != nil && freshsince(buf) && freshOrNil(buf.B) && freshsince(bs)
-//@   invariant[C01] 0 <= rangeindex + 1 && rangeindex + 1 <= #f.vals && #buf.B == {T2} * (rangeindex + 1) && #bs == {T2} && ref(buf.B) != ref(bs)
-//@   invariant[C01] forall k in 0..rangeindex + 1: le{T2}at(buf.B, {T2} * k) == bits_{T1}(f.vals[k])
+//@   invariant[C01] 0 <= iter && iter <= #f.vals && #buf.B == {T2} * (iter) && #bs == {T2} && ref(buf.B) != ref(bs)
+//@   invariant[C01] forall k in 0..iter: le{T2}at(buf.B, {T2} * k) == bits_{T1}(f.vals[k])
 //@ end template
 
 // C02: for a required numeric column the page header's sizes follow from the value count:
@@ -129,12 +129,12 @@ package gen
 //@   ensures[C06] old(chainInv(allocbound())) ==> chainInv(allocbound())
 //@ loop (*ParquetWriter).Write#1
 //@   modifies p.meta, HA(p.meta.rowGroups), heap("sch.ColumnMetaData"), heap("map[string]sch.ColumnChunk"), wfault, snk, ser, relArr
-//@   invariant metaOK(p.meta) && (wfault ==> old(wfault)) && p.meta.rowGroups == old(p.meta.rowGroups) && 0 <= rangeindex + 1
+//@   invariant metaOK(p.meta) && (wfault ==> old(wfault)) && p.meta.rowGroups == old(p.meta.rowGroups) && 0 <= iter
 //@   invariant[C02] snkPos >= old(snkPos) && snkKept(old(snkPos))
-//@   invariant[C06] old(#p.meta.rowGroups) >= 1 ==> p.meta.rowGroupDocs == old(p.meta.rowGroupDocs) && p.meta.docs == old(p.meta.docs) && closedSame(p.meta) && (rangeindex + 1 >= 1 ==> lastRows(p.meta) == p.meta.rowGroupDocs)
+//@   invariant[C06] old(#p.meta.rowGroups) >= 1 ==> p.meta.rowGroupDocs == old(p.meta.rowGroupDocs) && p.meta.docs == old(p.meta.docs) && closedSame(p.meta) && (iter >= 1 ==> lastRows(p.meta) == p.meta.rowGroupDocs)
 //@ loop (*ParquetWriter).Write#2
 //@   modifies p.meta, HA(p.meta.rowGroups), heap("sch.ColumnMetaData"), heap("map[string]sch.ColumnChunk"), wfault, snk, ser, relArr
-//@   invariant metaOK(p.meta) && (wfault ==> old(wfault)) && p.meta.rowGroups == old(p.meta.rowGroups) && 0 <= rangeindex$1 + 1
+//@   invariant metaOK(p.meta) && (wfault ==> old(wfault)) && p.meta.rowGroups == old(p.meta.rowGroups) && 0 <= iter$1
 //@   invariant[C02] snkPos >= old(snkPos) && snkKept(old(snkPos))
 //@   invariant[C06] old(#p.meta.rowGroups) >= 1 ==> p.meta.rowGroupDocs == old(p.meta.rowGroupDocs) && p.meta.docs == old(p.meta.docs)
 //@   invariant[C06] old(#p.meta.rowGroups) >= 1 ==> closedSame(p.meta)
@@ -254,16 +254,16 @@ package gen
 //@   ensures[C02] err == nil && #opts >= 1 && (forall k in 0..#opts - 1: fnid(opts[k]) != fnidOf("GEN.begin")) && fnid(opts[#opts - 1]) == fnidOf("GEN.begin") ==> snkPos == old(snkPos) + 4 && snkMagic(old(snkPos)) && snkKept(old(snkPos))
 //@ loop newParquetWriter#1
 //@   modifies p, wfault, snk
-//@   invariant p.w == w && (wfault ==> old(wfault)) && 0 <= rangeindex + 1 && rangeindex + 1 <= #opts
-//@   invariant (forall k in 0..rangeindex+1: fnid(opts[k]) != fnidOf("GEN.withMeta$1")) ==> p.meta == nil
-//@   invariant (forall k in 0..rangeindex+1: fnid(opts[k]) != fnidOf("GEN.begin")) ==> wfault == old(wfault)
-//@   invariant[C06] (forall k in 0..rangeindex+1: fnid(opts[k]) != fnidOf("GEN.begin")) ==> snkPos == old(snkPos) && snkB == old(snkB)
-//@   invariant[C02] rangeindex + 1 >= 1 && (forall k in 0..rangeindex: fnid(opts[k]) != fnidOf("GEN.begin")) && fnid(opts[rangeindex]) == fnidOf("GEN.begin") ==> snkPos == old(snkPos) + 4 && snkMagic(old(snkPos)) && snkKept(old(snkPos))
+//@   invariant p.w == w && (wfault ==> old(wfault)) && 0 <= iter && iter <= #opts
+//@   invariant (forall k in 0..(iter - 1)+1: fnid(opts[k]) != fnidOf("GEN.withMeta$1")) ==> p.meta == nil
+//@   invariant (forall k in 0..(iter - 1)+1: fnid(opts[k]) != fnidOf("GEN.begin")) ==> wfault == old(wfault)
+//@   invariant[C06] (forall k in 0..(iter - 1)+1: fnid(opts[k]) != fnidOf("GEN.begin")) ==> snkPos == old(snkPos) && snkB == old(snkB)
+//@   invariant[C02] iter >= 1 && (forall k in 0..(iter - 1): fnid(opts[k]) != fnidOf("GEN.begin")) && fnid(opts[(iter - 1)]) == fnidOf("GEN.begin") ==> snkPos == old(snkPos) + 4 && snkMagic(old(snkPos)) && snkKept(old(snkPos))
 //@   invariant[C06] p.len == 0 && p.child == nil && freshsince(p) && onlyNew(p)
-//@   invariant[C06] optMeta(opts, rangeindex + 1) >= 0 ==> p.meta == cloArg(opts[optMeta(opts, rangeindex + 1)])
-//@   invariant[C06] optMeta(opts, rangeindex + 1) < 0 ==> p.meta == nil
-//@   invariant[C06] optMax(opts, rangeindex + 1) >= 0 ==> p.max == cloArg(opts[optMax(opts, rangeindex + 1)])
-//@   invariant[C06] optMax(opts, rangeindex + 1) < 0 ==> p.max == 1000
+//@   invariant[C06] optMeta(opts, iter) >= 0 ==> p.meta == cloArg(opts[optMeta(opts, iter)])
+//@   invariant[C06] optMeta(opts, iter) < 0 ==> p.meta == nil
+//@   invariant[C06] optMax(opts, iter) >= 0 ==> p.max == cloArg(opts[optMax(opts, iter)])
+//@   invariant[C06] optMax(opts, iter) < 0 ==> p.max == 1000
 //@ loop newParquetWriter#2
 //@   modifies HA(schema)
 //@   invariant freshsince(schema)
@@ -325,8 +325,8 @@ package gen
 //@   invariant sameOrFresh2(vals, old(vals)) && sameOrFresh2(defs, old(defs)) && sameOrFresh2(reps, old(reps))
 //@   invariant[C03] (ref(defs) == 0 || ref(defs) != ref(reps)) && (ref(vals) == 0 || (ref(vals) != ref(defs) && ref(vals) != ref(reps)))
 //@   invariant[C03] #defs >= old(#defs) && #reps - old(#reps) == #defs - old(#defs) && #vals >= old(#vals) && #vals - old(#vals) <= #defs - old(#defs)
-//@   invariant[C03] rangeindex + 1 >= 1 ==> #defs > old(#defs)
-//@   invariant[C03] (#reps == old(#reps) ==> lastRep == 0) && (#reps > old(#reps) ==> reps[old(#reps)] == 0) && (#reps > old(#reps) && rangeindex + 1 == 0 ==> lastRep >= 1)
+//@   invariant[C03] iter >= 1 ==> #defs > old(#defs)
+//@   invariant[C03] (#reps == old(#reps) ==> lastRep == 0) && (#reps > old(#reps) ==> reps[old(#reps)] == 0) && (#reps > old(#reps) && iter == 0 ==> lastRep >= 1)
 //@   invariant[C03] forall k in old(#reps) + 1..#reps: reps[k] >= 1
 //@   invariant[C03] (forall k in old(#defs)..#defs: defs[k] <= fnconst("maxDef", thisfn())) && (forall k in old(#reps)..#reps: reps[k] <= fnconst("maxRep", thisfn())) && lastRep <= fnconst("maxRep", thisfn())
 //@   invariant[C03] (forall k in 0..old(#defs): defs[k] == old(defs[k])) && (forall k in 0..old(#reps): reps[k] == old(reps[k])) && (forall k in 0..old(#vals): vals[k] == old(vals[k]))
@@ -334,8 +334,8 @@ package gen
 //@   invariant sameOrFresh2(vals, old(vals)) && sameOrFresh2(defs, old(defs)) && sameOrFresh2(reps, old(reps))
 //@   invariant[C03] (ref(defs) == 0 || ref(defs) != ref(reps)) && (ref(vals) == 0 || (ref(vals) != ref(defs) && ref(vals) != ref(reps)))
 //@   invariant[C03] #defs >= old(#defs) && #reps - old(#reps) == #defs - old(#defs) && #vals >= old(#vals) && #vals - old(#vals) <= #defs - old(#defs)
-//@   invariant[C03] rangeindex + 1 >= 1 ==> #defs > old(#defs)
-//@   invariant[C03] rangeindex + 1 == 0 ==> #reps == old(#reps)
+//@   invariant[C03] iter >= 1 ==> #defs > old(#defs)
+//@   invariant[C03] iter == 0 ==> #reps == old(#reps)
 //@   invariant[C03] (#reps == old(#reps) ==> lastRep == 0) && (#reps > old(#reps) ==> reps[old(#reps)] == 0)
 //@   invariant[C03] forall k in old(#reps) + 1..#reps: reps[k] >= 1
 //@   invariant[C03] (forall k in old(#defs)..#defs: defs[k] <= fnconst("maxDef", thisfn())) && (forall k in old(#reps)..#reps: reps[k] <= fnconst("maxRep", thisfn())) && lastRep <= fnconst("maxRep", thisfn())
@@ -407,9 +407,9 @@ package gen
 //@   ensures[C12] forall j in 0..#defs - cntLess(defs, #defs, f.maxDef): !isNaN(vals[j]) ==> f.min <= vals[j] && vals[j] <= f.max
 //@   ensures[C12] f.min <= old(f.min) && f.max >= old(f.max)
 //@ loop (*{T}optionalStats).add#1
-//@   invariant[C12] okOptStats_{T}(f) && f.maxDef == old(f.maxDef) && 0 <= rangeindex + 1 && rangeindex + 1 <= #defs
-//@   invariant[C12] f.nils == old(f.nils) + cntLess(defs, rangeindex + 1, f.maxDef)
-//@   invariant[C12] i == rangeindex + 1 - cntLess(defs, rangeindex + 1, f.maxDef)
+//@   invariant[C12] okOptStats_{T}(f) && f.maxDef == old(f.maxDef) && 0 <= iter && iter <= #defs
+//@   invariant[C12] f.nils == old(f.nils) + cntLess(defs, iter, f.maxDef)
+//@   invariant[C12] i == iter - cntLess(defs, iter, f.maxDef)
 //@   invariant[C12] f.nonNils == old(f.nonNils) + i
 //@   invariant[C12] forall j in 0..i: !isNaN(vals[j]) ==> f.min <= vals[j] && vals[j] <= f.max
 //@   invariant[C12] f.min <= old(f.min) && f.max >= old(f.max)
@@ -492,9 +492,9 @@ package gen
 //@   ensures[C12] forall j in 0..#defs - cntLess(defs, #defs, s.maxDef): s.min <= vals[j] && vals[j] <= s.max
 //@   ensures[C12] old(s.has) ==> s.min <= old(s.min) && s.max >= old(s.max)
 //@ loop (*stringOptionalStats).add#1
-//@   invariant[C12] s.maxDef == old(s.maxDef) && 0 <= rangeindex + 1 && rangeindex + 1 <= #defs
-//@   invariant[C12] s.nils == old(s.nils) + cntLess(defs, rangeindex + 1, s.maxDef)
-//@   invariant[C12] i == rangeindex + 1 - cntLess(defs, rangeindex + 1, s.maxDef)
+//@   invariant[C12] s.maxDef == old(s.maxDef) && 0 <= iter && iter <= #defs
+//@   invariant[C12] s.nils == old(s.nils) + cntLess(defs, iter, s.maxDef)
+//@   invariant[C12] i == iter - cntLess(defs, iter, s.maxDef)
 //@   invariant[C12] forall j in 0..i: s.min <= vals[j] && vals[j] <= s.max
 //@   invariant[C12] old(s.has) ==> s.min <= old(s.min) && s.max >= old(s.max)
 //@   invariant[C12] s != nil && s.set == (old(s.has) || i > 0)
@@ -539,7 +539,7 @@ package gen
 //@   modifies b
 //@   ensures[C12] b.maxDef == old(b.maxDef) && b.nils == old(b.nils) + cntLess(defs, #defs, b.maxDef)
 //@ loop (*boolOptionalStats).add#1
-//@   invariant[C12] b.maxDef == old(b.maxDef) && 0 <= rangeindex + 1 && rangeindex + 1 <= #defs && b.nils == old(b.nils) + cntLess(defs, rangeindex + 1, b.maxDef)
+//@   invariant[C12] b.maxDef == old(b.maxDef) && 0 <= iter && iter <= #defs && b.nils == old(b.nils) + cntLess(defs, iter, b.maxDef)
 //@ func (*boolOptionalStats).NullCount
 //@   requires b != nil
 //@   modifies nothing
@@ -653,7 +653,7 @@ package gen
 //@   ensures[C01] #arg2 >= 1 ==> 1 <= res1 && res1 <= #arg2 && 0 <= res0 && res0 <= res1
 //@ end template
 //@ loop write*#*
-//@   invariant[C01] 0 <= rangeindex + 1 && rangeindex + 1 <= #defs && nLevels == rangeindex + 1 && 0 <= nVals && nVals <= nLevels
+//@   invariant[C01] 0 <= iter && iter <= #defs && nLevels == iter && 0 <= nVals && nVals <= nLevels
 
 // ... and Scan hands exactly that prefix over: while levels remain every Scan consumes at least
 // one of them, and the repetition levels stay aligned with the definition levels.
